@@ -284,6 +284,7 @@ MUST_FIRE += [
     ("m112", ["C11"], ["W11"], rep1(S + "tomography.py", "        circuit_result = CircuitResult(counts, qubits)  # type: ignore", "        circuit_result = CircuitResult(qubits, qubits)  # type: ignore"), "counts parser fed with the qubit list instead of the counts"),
     ("m113", ["C10", "C12"], ["W5"], rep1(S + "tomography.py", "            z_pauli = z_pauli_from_bitstring(num_qubits, i)", "            z_pauli = z_pauli_from_bitstring(counts, i)"), "Z mask built with the counts dictionary as width"),
     ("m114", ["C10", "C12"], ["W14"], rep1(S + "tomography.py", "        return full_expectation_values", "        return None"), "embedded expectation values computed but not returned"),
+    ("m115", ["C11"], ["B3"], rep1(S + "tomography.py", "            for index, qubit in enumerate(qubits):\n                new_key[qubit] = key[index]\n", "            new_key.z[list(qubits)] = key.z\n            new_key.x[list(qubits)] = key.x\n"), "re-embedding through the z/x arrays only: the phase unit of every Y factor is lost"),
     ("m95", ["C19"], ["K12"], rep1(S + "graph.py", "    def compress(self) -> int:", "    def compress(self) -> int:\n        if getattr(self, \"_id\", None) is not None:\n            return self._id\n        self._id = self._compress()\n        return self._id\n\n    def _compress(self) -> int:"), "graph id remembered by the object and never invalidated"),
     ("m72", ["C13"], ["A3"], rep1(S + "circuit_lookup.py", "result.circuits = [circuit.copy() for circuit in self.circuits]", "result.circuits = list(self.circuits)"), "fresh list of the cached circuits"),
 ]
